@@ -9,5 +9,6 @@ cp /repo/go.sum harness/go.sum
 (cd harness && go build -tags verif -o ../.build/harness ./cmd/harness && go build -o ../.build/facts ./cmd/facts)
 mkdir -p lean/Ioc/Generated
 ./.build/facts /repo > lean/Ioc/Generated/Facts.lean.new && mv lean/Ioc/Generated/Facts.lean.new lean/Ioc/Generated/Facts.lean
+./.build/facts -progs /repo > lean/Ioc/Generated/Progs.lean.new && mv lean/Ioc/Generated/Progs.lean.new lean/Ioc/Generated/Progs.lean
 (cd lean && lake build)
 echo "setup done"
